@@ -37,9 +37,21 @@ def reader_oracle(fn):
     return f
 
 
+KEEP_MSG = False   # only C17 compares the wording of error messages
+FIELDS = None      # record fields compared (None = all); set per property by the check script
+_FIELD = __import__('re').compile(r'(?<=[:/])([a-z])=[^:;/ ]*:?')
+_MSG = __import__('re').compile(r'/m=[0-9a-f]*')
+
+
 def project(line, keep_growth):
-    """What the exact comparison looks at."""
+    """What the exact comparison looks at: growth markers / request log only where growth is the subject
+    (C03, C09, C18), message wording only for C17 – so that harmless rewrites of unrelated behaviour do not
+    trip properties they have nothing to do with."""
     line = canon(line)
+    if not KEEP_MSG:
+        line = _MSG.sub('', line)
+    if FIELDS is not None and ('R:' in line or 'I:' in line):
+        line = _FIELD.sub(lambda m: m.group(0) if m.group(1) in FIELDS else '', line)
     if keep_growth or '<' in line:
         return line
     toks, _ = split_obs(line)
